@@ -1,4 +1,4 @@
-from vf2.spec import *
+from vf.spec import *
 def build(reg):
     m = reg.module("gcmpy/message_passing/equations/clique_equation.py")
     m.fn("clique_equation.omega", params={"tau": INT, "kappa": INT}, ret=REAL,
